@@ -443,6 +443,11 @@ def _unsafe_constructor(loader, node):
 
 
 @rethrow_as_parsing_error
+def _safe_constructor(loader, node):
+    return _make_node(loader, node, kwargs={ 'safe': True })
+
+
+@rethrow_as_parsing_error
 def make_call_node_with_fixed_func(loader, node, func):
     from .nodes.call import CallNode
     return _make_node(loader, node, node_type=CallNode, kwargs={ 'func': func }, data_arg_name='args')
@@ -517,6 +522,7 @@ add_constructor('!path', _simple_path_constructor)
 add_constructor('!new', _new_constructor)
 add_constructor('!notnew', _notnew_constructor)
 add_constructor('!unsafe', _unsafe_constructor)
+add_constructor('!safe', _safe_constructor)
 add_constructor('!clear', _clear_constructor)
 add_multi_constructor('!clear:', _clear_constructor_md)
 add_constructor('!extend', _extend_constructor)
